@@ -167,11 +167,45 @@ def rule_T7(ctx, f):
         ok = is_call(r, "Duration::as_secs_f64") and is_call(peel(r[2][0], transparent=[]), "Instant::elapsed") and peel(peel(r[2][0], transparent=[])[2][0]) == P(1)
         ctx.ob("T7", "elapsed_sec|as_secs_f64", ok, "elapsed_sec must be self.elapsed().as_secs_f64() (found %s)" % show(r), site=es.raw["span"]["at"])
     el = ctx.anchor("T7", "Instant::elapsed", f.body(H + "Instant::elapsed"))
+    checked_ok = set()
     if el:
         ctx.saw(el)
-        sat = el.calls_to("Instant::saturating_duration_since")
-        ok = len(sat) >= 1 and all(is_call(peel(c.args[0], transparent=[]), "Instant::now") for c in sat)
-        ctx.ob("T7", "elapsed|saturating", ok, "the monotonic arm must be now().saturating_duration_since(start)", site=el.raw["span"]["at"])
+        # the monotonic arm: now().saturating_duration_since(start), or now().checked_duration_since(start) with None mapped to a zero Duration
+        def zero_dur(t):
+            t = peel(t, transparent=[])
+            if isinstance(t, tuple) and t and t[0] == "constdef":
+                return strip_generics(t[1]).endswith("Duration::ZERO")
+            if is_call(t, ["Default::default", "Duration::default"]):
+                return True
+            if is_call(t, ["Duration::from_secs", "Duration::from_millis", "Duration::from_micros", "Duration::from_nanos", "Duration::new"]):
+                return all(const_int(a) == 0 for a in t[2])
+            return False
+
+        def since(t, names):
+            t = peel(t, transparent=[])
+            if not is_call(t, names) or len(t[2]) != 2:
+                return False
+            st = peel(t[2][1])
+            start_ok = isinstance(st, tuple) and st[0] == "field" and isinstance(st[1], tuple) and st[1][0] == "downcast" and peel(st[1][1]) == P(1)
+            return is_call(peel(t[2][0], transparent=[]), "Instant::now") and start_ok
+
+        def mono(t):
+            t = peel(t, transparent=[])
+            if since(t, "Instant::saturating_duration_since"):
+                return True
+            if is_call(t, "Option::unwrap_or_default") and since(t[2][0], "Instant::checked_duration_since"):
+                return True
+            if is_call(t, "Option::unwrap_or") and since(t[2][0], "Instant::checked_duration_since") and zero_dur(t[2][1]):
+                return True
+            return False
+        r = el.term_local(0)
+        alts = el.var_alts(r[1]) if isinstance(r, tuple) and r and r[0] == "var" else [r]
+        ok = any(mono(a) for a in alts)
+        ctx.ob("T7", "elapsed|saturating", ok, "the monotonic arm must return now().saturating_duration_since(start) (or checked_duration_since with None -> zero); found %s" % show(r), site=el.raw["span"]["at"])
+        checked_ok = set()
+        for c in el.calls():
+            if c.matches(["Option::unwrap_or", "Option::unwrap_or_default"]) and mono(c.result_term()):
+                checked_ok.add(peel(c.args[0], transparent=[])[3])
         fm = el.calls_to("Duration::from_millis")
         if fm:
             # coarse arm: guarded by dur >= 0
@@ -184,11 +218,19 @@ def rule_T7(ctx, f):
                     zero = [c for c in fm if const_int(c.args[0]) == 0]
                     nonz = [c for c in fm if const_int(c.args[0]) != 0]
                     okg = len(zero) == 1 and len(nonz) == 1 and el.edge_dominates(bi, pos, nonz[0].bb) and el.edge_dominates(bi, neg, zero[0].bb)
+            if not okg and len(fm) == 1:
+                # from_millis(max(dur, 0) as u64): the clamp as a value
+                a = peel(fm[0].args[0], transparent=[])
+                while isinstance(a, tuple) and a and a[0] == "cast":
+                    a = peel(a[2], transparent=[])
+                okg = is_call(a, ["Ord::max", "i64::max", "cmp::max"]) and any(const_int(x) == 0 for x in a[2])
             ctx.ob("T7", "elapsed|coarse-guard", okg, "the coarse arm must clamp a negative difference to zero", site=el.raw["span"]["at"])
     bad = []
     for k in f.order:
         b = f.bodies[k]
         for c in b.calls():
+            if el is not None and b is el and c.matches(["Instant::checked_duration_since"]) and c.bb in checked_ok:
+                continue    # its None is mapped to zero (see elapsed|saturating)
             if c.matches(["Instant::duration_since", "Instant::checked_duration_since"]) or (c.matches(["Sub::sub"]) and "std::time::Instant" in c.callee_args):
                 bad.append((b, c))
     for b, c in bad:
